@@ -365,6 +365,23 @@ func shapeFamily(maxM int, pol leafPolicy, stress bool, rootSorts string) []stri
 		add(strings.ReplaceAll(strings.ReplaceAll(v, "(and ", "(&& "), "(or ", "(|| "))
 		add(strings.ReplaceAll(strings.ReplaceAll(v, "(and ", "(& "), "(or ", "(| "))
 	}
+	// the grammar writes one comparison, one equality and two arithmetic operators; the single-operator
+	// shapes are also run with the other built-in operators of the same signature (all-variable leaves,
+	// and one variable in both positions)
+	opVariants := func(sh string, i int, v string) {
+		if noAliasVariants {
+			return
+		}
+		if i != 0 && v != assignLeaves(sh, strings.Repeat("r", len(leafSlots(sh)))) {
+			return
+		}
+		for _, r := range [][2]string{{"(> ", "(< "}, {"(> ", "(<= "}, {"(> ", "(>= "}, {"(> ", "(ge "}, {"(> ", "(le "}, {"(= ", "(!= "}, {"(= ", "(eq "}, {"(= ", "(ne "},
+			{"(+ ", "(- "}, {"(+ ", "(% "}, {"(/ ", "(mod "}} {
+			if strings.Contains(v, r[0]) {
+				add(strings.ReplaceAll(v, r[0], r[1]))
+			}
+		}
+	}
 	for m := 1; m <= maxM; m++ {
 		if strings.Contains(rootSorts, "B") {
 			for _, sh := range ss.B(m) {
@@ -372,6 +389,9 @@ func shapeFamily(maxM int, pol leafPolicy, stress bool, rootSorts string) []stri
 					add(v)
 					if i == 0 || aliasEveryVariant {
 						aliases(v)
+					}
+					if m == 1 {
+						opVariants(sh, i, v)
 					}
 				}
 			}
@@ -382,6 +402,9 @@ func shapeFamily(maxM int, pol leafPolicy, stress bool, rootSorts string) []stri
 					add(v)
 					if i == 0 || aliasEveryVariant {
 						aliases(v)
+					}
+					if m == 1 {
+						opVariants(sh, i, v)
 					}
 				}
 			}
